@@ -9,6 +9,7 @@ import (
 
 	"github.com/aperturerobotics/bifrost/util/simhook"
 	"github.com/aperturerobotics/util/broadcast"
+	cache "github.com/patrickmn/go-cache"
 )
 
 // cur is the run in progress (one per process at a time).
@@ -56,6 +57,11 @@ func InstallHooks() {
 			return false
 		}
 		return s.buggify(site)
+	}
+	cache.SimYield = func(op string) {
+		if s := cur; s != nil {
+			s.Yield("cache/"+op, "")
+		}
 	}
 	broadcast.Sim = &broadcast.SimHooks{
 		BeforeLock: func(b *broadcast.Broadcast, pc uintptr) {
